@@ -28,6 +28,8 @@ Qed.
 
 Section Writer.
 Variable prefix : bytes.
+Variable b18 : bool.      (* with or without the repair of D18 *)
+Notation pv := (post b18).
 Notation islog := (is_log_file post_fix prefix).
 Notation Good := (Good prefix).
 Notation Kills := (Kills prefix).
@@ -113,10 +115,10 @@ Qed.
 (* ---- phase 1: rotation *)
 Lemma phase_rotate_ok m cfg rest cf w ev :
   WInv rest cf w -> w_len w < two63 -> l_size ev < two63 -> slen (w_set w) < two63 ->
-  (phase_rotate post_fix m cfg ev w = ROk w /\
+  (phase_rotate pv m cfg ev w = ROk w /\
    w_len w + l_size ev <= max_write_bytes cfg /\ l_time ev - w_created w <= max_write_age cfg)
   \/
-  (exists nm, phase_rotate post_fix m cfg ev w =
+  (exists nm, phase_rotate pv m cfg ev w =
       ROk (mkW ((rest ++ [cf]) ++ [new_file nm (l_time ev)])
                (mkPset (entries (w_set w) ++ [mkPfile (w_cur w) (l_time ev) (w_len w)])
                        (slen (w_set w) + w_len w) (ties (w_set w)))
@@ -130,7 +132,7 @@ Proof.
   intros I Hl Hn Hs. destruct I as [Hfs G A R Nm Gn Sz Cr].
   unfold phase_rotate. rewrite add64_ok by (rewrite <- two63_two64; lia).
   destruct ((max_write_bytes cfg <? w_len w + l_size ev) || (max_write_age cfg <? l_time ev - w_created w)) eqn:E.
-  - right. unfold push. cbn [v_push_counts post_fix p_len].
+  - right. unfold push. cbn [v_push_counts post p_len].
     rewrite add64_ok by (rewrite <- two63_two64; lia).
     destruct (create_some (ticks_per_sec cfg) (l_time ev) (w_fs w)) as (nm & Ec & Gnm & Hfresh).
     rewrite Ec, Hfs. exists nm. split; [reflexivity|].
@@ -148,30 +150,30 @@ Proof.
 Qed.
 
 (* ---- phase 2: deletion by age and by budget *)
-Lemma Pops_trans P a b c : Pops P a b -> Pops P b c -> Pops P a c.
+Lemma Pops_trans leb P a b c : Pops leb P a b -> Pops leb P b c -> Pops leb P a c.
 Proof. induction 1; intros Hc; auto. apply Pops_step; auto. Qed.
 
 Lemma phase_delete_ok m cfg rest cf w ev : WInv rest cf w ->
   exists rest' st',
     let w' := mkW (rest' ++ [cf]) st' (w_cur w) (w_len w) (w_created w) in
-    phase_delete post_fix m cfg ev w = ROk w' /\ WInv rest' cf w' /\ Kills rest rest' /\
+    phase_delete pv m cfg ev w = ROk w' /\ WInv rest' cf w' /\ Kills rest rest' /\
     slen st' <= max_keep_bytes cfg - w_len w - l_size ev /\
     (forall d, max_keep_age cfg = Some d -> forall e, In e (entries st') -> l_time ev - d <= p_mtime e) /\
-    Pops (fun _ => True) (entries (w_set w)) (entries st').
+    Pops (heap_leb pv) (fun _ => True) (entries (w_set w)) (entries st').
 Proof.
   intros I. destruct I as [Hfs G A R Nm Gn Sz Cr].
   unfold phase_delete.
   (* age *)
   assert (H1 : exists rest1 st1,
     match max_keep_age cfg with
-    | Some d => lift_set w (delete_older_than m (l_time ev) d (w_fs w, w_set w))
+    | Some d => lift_set w (delete_older_than pv m (l_time ev) d (w_fs w, w_set w))
     | None => ROk w
     end = ROk (mkW (rest1 ++ [cf]) st1 (w_cur w) (w_len w) (w_created w)) /\
     Good rest1 [cf] st1 /\ Kills rest rest1 /\
     (forall d, max_keep_age cfg = Some d -> forall e, In e (entries st1) -> l_time ev - d <= p_mtime e) /\
-    Pops (fun _ => True) (entries (w_set w)) (entries st1)).
+    Pops (heap_leb pv) (fun _ => True) (entries (w_set w)) (entries st1)).
   { destruct (max_keep_age cfg) as [d|].
-    - rewrite Hfs. destruct (delete_older_than_good prefix m (l_time ev) d rest [cf] _ G)
+    - rewrite Hfs. destruct (delete_older_than_good prefix b18 m (l_time ev) d rest [cf] _ G)
         as (rest1 & st1 & E & G1 & K1 & P1 & Hthr & _).
       rewrite E. cbn [lift_set]. exists rest1, st1. splits; auto.
       + intros d' [= <-]. exact Hthr.
@@ -181,8 +183,8 @@ Proof.
       + intros d' [=].
       + constructor. }
   destruct H1 as (rest1 & st1 & -> & G1 & K1 & Hage & P1).
-  cbn [bind]. unfold budget. cbn [v_sat_budget post_fix w_len w_fs w_set].
-  destruct (while_over_good prefix m (sat_sub (sat_sub (max_keep_bytes cfg) (w_len w)) (l_size ev)) rest1 [cf] st1 G1)
+  cbn [bind]. unfold budget. cbn [v_sat_budget post w_len w_fs w_set].
+  destruct (while_over_good prefix b18 m (sat_sub (sat_sub (max_keep_bytes cfg) (w_len w)) (l_size ev)) rest1 [cf] st1 G1)
     as (rest2 & st2 & E & G2 & K2 & Hle & P2 & _).
   rewrite E. cbn [lift_set w_cur w_len w_created].
   exists rest2, st2. cbn zeta. splits; auto.
@@ -216,7 +218,7 @@ Definition step_shape (rest : list file) (cf : file) (w : wstate) (cfg : config)
 Lemma step_ok m cfg rest cf w ev :
   cfg_ok cfg -> WInv rest cf w -> w_len w < two63 -> slen (w_set w) <= max_keep_bytes cfg -> l_size ev < two63 ->
   exists rest' cf' w',
-    step post_fix m cfg w ev = ROk w' /\ WInv rest' cf' w' /\ step_shape rest cf w cfg ev rest' cf' /\
+    step pv m cfg w ev = ROk w' /\ WInv rest' cf' w' /\ step_shape rest cf w cfg ev rest' cf' /\
     w_len w' < two63 /\ slen (w_set w') <= max_keep_bytes cfg /\
     slen (w_set w') + w_len w' <= N.max (N.max (max_keep_bytes cfg) (max_write_bytes cfg)) (l_size ev) /\
     (forall d, max_keep_age cfg = Some d -> forall e, In e (entries (w_set w')) -> l_time ev - d <= p_mtime e).
@@ -261,12 +263,12 @@ Proof. rewrite map_map. reflexivity. Qed.
 Lemma start_ok m cfg fs0 ts sl :
   NoDup (live_names fs0) -> total_size post_fix prefix fs0 < two64 -> l_size sl < two63 ->
   exists rest nm w,
-    start post_fix m cfg prefix fs0 ts sl = ROk w /\
+    start pv m cfg prefix fs0 ts sl = ROk w /\
     WInv rest (add_line sl (new_file nm (l_time sl))) w /\ Kills fs0 rest /\ is_gen nm = true /\
     w_len w = l_size sl /\ slen (w_set w) <= max_keep_bytes cfg.
 Proof.
   intros Hnd Htot Hs. unfold start, set_new.
-  fold (logs prefix fs0). rewrite logs_entry_lens.
+  change (filter (is_log_file pv prefix) fs0) with (logs prefix fs0). rewrite logs_entry_lens.
   rewrite (sum64_fits m _ 0) by (unfold total_size, log_files in Htot; unfold logs; lia).
   set (st0 := mkPset (map entry_of (logs prefix fs0)) (0 + sumN (map f_size (logs prefix fs0))) ts).
   assert (G0 : Good fs0 [] st0).
@@ -275,7 +277,7 @@ Proof.
     - apply logs_entry_names.
     - apply logs_entry_lens.
     - rewrite logs_entry_lens. lia. }
-  destruct (while_over_good prefix m (max_keep_bytes cfg) fs0 [] st0 G0) as (rest & st1 & E & G1 & K & Hle & _).
+  destruct (while_over_good prefix b18 m (max_keep_bytes cfg) fs0 [] st0 G0) as (rest & st1 & E & G1 & K & Hle & _).
   rewrite !app_nil_r in E. rewrite E.
   destruct (create_some (ticks_per_sec cfg) (l_time sl) rest) as (nm & Ec & Gn & Hfresh). rewrite Ec.
   rewrite add64_ok by (pose proof two63_two64; lia).
@@ -390,7 +392,7 @@ Lemma run_events_ok m cfg fs0 MW WA : cfg_ok cfg -> max_write_bytes cfg <= MW ->
   WInv rest cf w -> w_len w < two63 -> slen (w_set w) <= max_keep_bytes cfg ->
   Forall (fun l => l_size l < two63) evs -> HIc fs0 lines MW WA rest cf ->
   exists rest' cf' w',
-    run_events post_fix m cfg w evs = ROk w' /\ WInv rest' cf' w' /\
+    run_events pv m cfg w evs = ROk w' /\ WInv rest' cf' w' /\
     w_len w' < two63 /\ slen (w_set w') <= max_keep_bytes cfg /\
     HIc fs0 (lines ++ evs) MW WA rest' cf' /\
     (forall ev, last evs ev = ev -> evs <> [] ->
@@ -430,7 +432,7 @@ Qed.
 Lemma run_one_ok m fs0 MW WA linesA fsA r :
   HI fs0 linesA MW WA fsA -> dir_ok fsA -> wf_run MW WA r ->
   exists rest cf w,
-    run_one post_fix m prefix fsA r = ROk w /\ WInv rest cf w /\
+    run_one pv m prefix fsA r = ROk w /\ WInv rest cf w /\
     w_len w < two63 /\ slen (w_set w) <= max_keep_bytes (r_cfg r) /\
     HIc fs0 (linesA ++ run_lines r) MW WA rest cf /\
     (r_events r = [] -> slen (w_set w) + w_len w <= max_keep_bytes (r_cfg r) + l_size (r_start r)) /\
@@ -457,7 +459,7 @@ Qed.
 
 Lemma history_ok m fs0 MW WA : forall rs linesA fsA,
   HI fs0 linesA MW WA fsA -> dir_ok fsA -> Forall (wf_run MW WA) rs ->
-  exists fs', run_history post_fix m prefix fsA rs = ROk fs' /\
+  exists fs', run_history pv m prefix fsA rs = ROk fs' /\
               HI fs0 (linesA ++ history_lines rs) MW WA fs' /\ dir_ok fs'.
 Proof.
   induction rs as [|r rs IH]; intros linesA fsA H D Hwf.
@@ -479,14 +481,14 @@ Definition hist_ok (fs0 : list file) (MW WA : N) (rs : list run) : Prop :=
   dir_ok fs0 /\ Forall (wf_run MW WA) rs.
 
 Lemma writer_never_panics m fs0 MW WA rs : hist_ok fs0 MW WA rs ->
-  exists fs', run_history post_fix m prefix fs0 rs = ROk fs'.
+  exists fs', run_history pv m prefix fs0 rs = ROk fs'.
 Proof.
   intros [D W]. destruct (history_ok m fs0 MW WA rs [] fs0 (HI_init _ _ _) D W) as (fs' & E & _). eauto.
 Qed.
 
 Lemma every_event_once_in_order m fs0 MW WA rs : hist_ok fs0 MW WA rs ->
   exists fs' old created,
-    run_history post_fix m prefix fs0 rs = ROk fs' /\ fs' = old ++ created /\ Kills fs0 old /\
+    run_history pv m prefix fs0 rs = ROk fs' /\ fs' = old ++ created /\ Kills fs0 old /\
     concat (map f_lines created) = history_lines rs /\
     Forall (fun f => f_lines f <> []) created.
 Proof.
@@ -497,7 +499,7 @@ Qed.
 
 Lemma file_bounds m fs0 MW WA rs : hist_ok fs0 MW WA rs ->
   exists fs' old created,
-    run_history post_fix m prefix fs0 rs = ROk fs' /\ fs' = old ++ created /\ length old = length fs0 /\
+    run_history pv m prefix fs0 rs = ROk fs' /\ fs' = old ++ created /\ length old = length fs0 /\
     Forall (fun f =>
       (f_size f <= MW \/ length (f_lines f) = 1%nat) /\
       Forall (fun l => l_time l - f_created f <= WA) (f_lines f)) created.
@@ -513,7 +515,7 @@ Qed.
 
 Lemma other_files_untouched m fs0 MW WA rs : hist_ok fs0 MW WA rs ->
   exists fs' old created,
-    run_history post_fix m prefix fs0 rs = ROk fs' /\ fs' = old ++ created /\
+    run_history pv m prefix fs0 rs = ROk fs' /\ fs' = old ++ created /\
     Forall2 (fun f f' => is_log_file post_fix prefix f = false -> f' = f) fs0 old.
 Proof.
   intros [D W]. destruct (history_ok m fs0 MW WA rs [] fs0 (HI_init _ _ _) D W) as (fs' & E & (old & created & -> & K & Hc & Hf) & _).
@@ -524,7 +526,7 @@ Qed.
    boundary of every history, because the events of [r] are an arbitrary list *)
 Lemma run_after_history m fs0 MW WA rs r : hist_ok fs0 MW WA (rs ++ [r]) ->
   exists fsA rest cf w,
-    run_history post_fix m prefix fs0 rs = ROk fsA /\ run_one post_fix m prefix fsA r = ROk w /\
+    run_history pv m prefix fs0 rs = ROk fsA /\ run_one pv m prefix fsA r = ROk w /\
     WInv rest cf w /\ HIc fs0 (history_lines rs ++ run_lines r) MW WA rest cf /\
     (r_events r = [] -> slen (w_set w) + w_len w <= max_keep_bytes (r_cfg r) + l_size (r_start r)) /\
     (forall ev, last (r_events r) ev = ev -> r_events r <> [] ->
@@ -541,7 +543,7 @@ Qed.
 
 Lemma total_bound m fs0 MW WA rs r : hist_ok fs0 MW WA (rs ++ [r]) ->
   exists fsA w,
-    run_history post_fix m prefix fs0 rs = ROk fsA /\ run_one post_fix m prefix fsA r = ROk w /\
+    run_history pv m prefix fs0 rs = ROk fsA /\ run_one pv m prefix fsA r = ROk w /\
     (r_events r = [] ->
        total_size post_fix prefix (w_fs w) <= max_keep_bytes (r_cfg r) + l_size (r_start r)) /\
     (forall ev, last (r_events r) ev = ev -> r_events r <> [] ->
@@ -555,7 +557,7 @@ Qed.
 Lemma total_bound_quantifier m fs0 MW WA rs r : hist_ok fs0 MW WA (rs ++ [r]) ->
   max_write_bytes (r_cfg r) <= max_keep_bytes (r_cfg r) ->
   exists fsA w,
-    run_history post_fix m prefix fs0 rs = ROk fsA /\ run_one post_fix m prefix fsA r = ROk w /\
+    run_history pv m prefix fs0 rs = ROk fsA /\ run_one pv m prefix fsA r = ROk w /\
     total_size post_fix prefix (w_fs w) <= max_keep_bytes (r_cfg r) + l_size (last (r_events r) (r_start r)).
 Proof.
   intros H Hk. destruct (total_bound m fs0 MW WA rs r H) as (fsA & w & E & E1 & T0 & T1).
@@ -571,7 +573,7 @@ Qed.
 Lemma age_bound m fs0 MW WA rs r d : hist_ok fs0 MW WA (rs ++ [r]) ->
   max_keep_age (r_cfg r) = Some d -> r_events r <> [] ->
   exists fsA rest cf w,
-    run_history post_fix m prefix fs0 rs = ROk fsA /\ run_one post_fix m prefix fsA r = ROk w /\
+    run_history pv m prefix fs0 rs = ROk fsA /\ run_one pv m prefix fsA r = ROk w /\
     w_fs w = rest ++ [cf] /\
     map p_name (entries (w_set w)) = map f_name (logs prefix rest) /\
     Forall (fun e => l_time (last (r_events r) (r_start r)) - d <= p_mtime e) (entries (w_set w)).
@@ -588,7 +590,7 @@ Qed.
 
 Lemma writer_len_is_sum m fs0 MW WA rs r : hist_ok fs0 MW WA (rs ++ [r]) ->
   exists fsA rest cf w,
-    run_history post_fix m prefix fs0 rs = ROk fsA /\ run_one post_fix m prefix fsA r = ROk w /\
+    run_history pv m prefix fs0 rs = ROk fsA /\ run_one pv m prefix fsA r = ROk w /\
     w_fs w = rest ++ [cf] /\ f_name cf = w_cur w /\ f_alive cf = true /\
     slen (w_set w) = sumN (map f_size (logs prefix rest)) /\ w_len w = f_size cf.
 Proof.
@@ -598,7 +600,7 @@ Qed.
 
 Lemma current_file_has_last_event m fs0 MW WA rs r : hist_ok fs0 MW WA (rs ++ [r]) ->
   exists fsA rest cf w p,
-    run_history post_fix m prefix fs0 rs = ROk fsA /\ run_one post_fix m prefix fsA r = ROk w /\
+    run_history pv m prefix fs0 rs = ROk fsA /\ run_one pv m prefix fsA r = ROk w /\
     w_fs w = rest ++ [cf] /\ f_alive cf = true /\
     history_lines (rs ++ [r]) = p ++ f_lines cf /\ f_lines cf <> [].
 Proof.
